@@ -1,4 +1,5 @@
 import QuinnModel.Drv.Wire
+import QuinnModel.Drv.RxPn
 import QuinnModel.Drv.Streams
 import QuinnModel.Drv.Dgram
 import QuinnModel.Drv.Mtud
@@ -51,6 +52,7 @@ def step (s : St) (line : String) : St × String :=
   | "case" :: _ => ({}, line.trimAscii.toString)
   | "varint" :: r => (s, Drv.varint r)
   | "pn" :: r => (s, Drv.pn r)
+  | "rxpn" :: r => (s, Drv.rxpn r)
   | "amp" :: r => (s, Drv.amp r)
   | "life" :: r => (s, Drv.life r)
   | "timers" :: r => (s, Drv.timers r)
